@@ -137,6 +137,8 @@ type LibGen struct {
 	xff    uint32
 	exotic bool
 	prop   string
+	// always Sync right after Create (a never-synced file has an all-zero header on disk)
+	alwaysSync bool
 }
 
 var xffChoices = []float32{0, 0, 0.5, 1, 0.2, 0.25, 0.3333333, 0.34, 0.1, 0.99, 1e-9}
@@ -288,7 +290,7 @@ func (g *LibGen) History(nSteps int) []Op {
 	}
 	var ops []Op
 	ops = append(ops, Op{"reset", false}, Op{g.createLine(), true})
-	if g.r.Chance(4, 5) {
+	if g.r.Chance(4, 5) || g.alwaysSync {
 		// (a file never synced has a zero header on disk and cannot be reopened)
 		ops = append(ops, Op{"sync", sDisk})
 	}
